@@ -161,7 +161,51 @@ def c_min(a, b):
     return ite(a <= b, a, b)
 
 
+def graph(n):
+    """the cycle search itself, on EVERY wait-for graph over n operations: each operation waits for an ordered
+    subset of the others (the order in which edges were added is what the search iterates in), compared with a
+    reference reachability closure: a cycle is reported iff one exists, and the reported agents form a cycle of
+    existing edges. (Wait-for graphs of this shape arise from operations blocked on several resources; histories
+    reach them only at depths beyond the history harness's bound for 3 operations.)"""
+    import itertools
+    from operon_ai.coordination.types import DependencyGraph
+    nodes = [f"o{i}" for i in range(n)]
+
+    def h(c):
+        g = DependencyGraph()
+        edges = set()
+        for a in nodes:
+            others = [b for b in nodes if b != a]
+            opts = [p for r in range(len(others) + 1) for p in itertools.permutations(others, r)]
+            targets = c.choice(f"waits_{a}", opts, labels=["-".join(p) or "none" for p in opts])
+            for b in targets:
+                g.add_dependency(a, b, f"r_{b}")
+                edges.add((a, b))
+        st, info_ = call_returns(c, "C15.total", "detect_cycle", g.detect_cycle)
+        if st != "ok":
+            c.fail("C15.total", {"what": "detect_cycle raised", "raised": repr(info_), "edges": sorted(edges)})
+            return
+        reach = {a: {b for (x, b) in edges if x == a} for a in nodes}
+        for _ in nodes:
+            for a in nodes:
+                for b in list(reach[a]):
+                    reach[a] |= reach[b]
+        cyclic = any(a in reach[a] for a in nodes)
+        info = {"edges": sorted(edges), "reported": None if info_ is None else list(info_.agents)}
+        c.observe("reported", info_ is not None)
+        if cyclic:
+            c.check("C15.a-missed", info_ is not None, {"what": "real wait-for cycle not reported (missed deadlock)", **info})
+        else:
+            c.check("C15.a-phantom", info_ is None, {"what": "cycle reported in an acyclic wait-for graph", **info})
+        if info_ is not None:
+            ag = list(info_.agents)
+            ok = len(ag) >= 2 and len(set(ag)) == len(ag) and all((ag[i], ag[(i + 1) % len(ag)]) in edges for i in range(len(ag)))
+            c.check("C15.b-members", ok, {"what": "reported agents do not form a cycle of existing wait-for edges", **info})
+    return h
+
+
 HARNESSES = {
+    "graph": {"make": graph, "witness_every": 101, "jobs": lambda tier: [{"n": 3}, {"n": 4}], "clauses": ["C15.a-missed", "C15.a-phantom", "C15.b-members"]},
     "history": {"make": history, "witness_every": 23,
                 "jobs": lambda tier: ([{"nops": 2, "nres": 3, "k": 6, "preempt": [False]}, {"nops": 3, "nres": 3, "k": 5, "preempt": [False]},
                                        {"nops": 3, "nres": 2, "k": 5, "preempt": [True]}, {"nops": 2, "nres": 3, "k": 5, "preempt": [True, False]}] if tier == "quick" else
@@ -174,11 +218,11 @@ HARNESSES = {
 META = {
     "manifest": {
         "text": "Bounded symbolic model checking of the implementation: every history (up to k calls; symmetry-broken on resource names only, because the implementation orders operation ids) of acquire/release/complete/abort/watchdog.execute over 2-3 operations and 2-3 resources is run through the real CellCycleController/DependencyGraph/Watchdog, with symbolic priorities, and after every call check_deadlock() is compared with a reference wait-for graph recomputed from the history and the current lock owners. Exhaustive within the bound; z3 decides the priority comparisons (preemption, victim selection).",
-        "note": "Trusted: z3, CPython, SymX, the reference definition of 'currently blocked' (latest request for r returned BLOCKED, not since acquired, operation alive; edge to the CURRENT owner). Mostly discrete: solver share is the priority arithmetic.",
+        "note": "Trusted: z3, CPython, SymX, the reference definition of 'currently blocked' (latest request for r returned BLOCKED, not since acquired, operation alive; edge to the CURRENT owner). Mostly discrete: solver share is the priority arithmetic. The `graph` harness runs DependencyGraph.detect_cycle on every wait-for graph over 3 and 4 operations (each operation waiting for every ORDERED subset of the others: 65 661 graphs) against a reachability closure; that part is exhaustive choice exploration of a finite space - z3 has no share in it - and is what reaches multi-edge graphs that histories only produce beyond the history bound.",
         "technique": "exhaustive symbolic-choice histories through controller.py/types.py/watchdog.py vs reference wait-for graph; symbolic priorities via z3",
     },
     "files": ["operon_ai/coordination/controller.py", "operon_ai/coordination/types.py", "operon_ai/coordination/watchdog.py"],
-    "bounds": {"quick": "(2 ops,3 res,k=6), (3,3,k=5) without preemption; (3,2,k=5) preemptable; (2,3,k=5) mixed; priorities 0..3 symbolic",
+    "bounds": {"quick": "cycle search on all 65 661 ordered wait-for graphs over 3 and 4 operations; histories: (2 ops,3 res,k=6), (3,3,k=5) without preemption; (3,2,k=5) preemptable; (2,3,k=5) mixed; priorities 0..3 symbolic",
                "thorough": "(ops,resources,depth): (2,2,k=8), (3,3,k=6), (3,2,k=6 preemptable), (2,3,k=7 mixed), (3,3,k=6 mixed); (2,3,k=8) and (3,2,k=7 preemptable) exceed 5 minutes each on 16 cores since operation ids are no longer symmetry-reduced: outside"},
     "outside": ["histories longer than k", "more than 3 operations/resources", "timeouts (C14 watchdog harness)", "priority inheritance"],
     "float_argument": "none",
